@@ -5,12 +5,15 @@ use crate::framework::{CheckDef, Tier};
 pub mod common;
 pub mod c01;
 pub mod c02;
+pub mod c03;
 pub mod c04;
+pub mod c05;
 pub mod c06;
 pub mod c07;
 pub mod c08;
 pub mod c09;
 pub mod c10;
+pub mod c14;
 pub mod c15;
 pub mod c16;
 pub mod c16_graphs;
@@ -22,18 +25,21 @@ pub mod slice_oracles;
 pub mod standalone;
 pub mod stream_props;
 
-pub const ALL: &[&str] = &["C01", "C02", "C04", "C06", "C07", "C08", "C09", "C10", "C15", "C16", "C17", "C18", "C19"];
+pub const ALL: &[&str] = &["C01", "C02", "C03", "C04", "C05", "C06", "C07", "C08", "C09", "C10", "C14", "C15", "C16", "C17", "C18", "C19"];
 
 pub fn build(prop: &str, tier: Tier) -> Option<CheckDef> {
     match prop {
         "C01" => Some(c01::build(tier)),
         "C02" => Some(c02::build(tier)),
+        "C03" => Some(c03::build(tier)),
         "C04" => Some(c04::build(tier)),
+        "C05" => Some(c05::build(tier)),
         "C06" => Some(c06::build(tier)),
         "C07" => Some(c07::build(tier)),
         "C08" => Some(c08::build(tier)),
         "C09" => Some(c09::build(tier)),
         "C10" => Some(c10::build(tier)),
+        "C14" => Some(c14::build(tier)),
         "C15" => Some(c15::build(tier)),
         "C16" => Some(c16::build(tier)),
         "C17" => Some(c17::build(tier)),
